@@ -17,6 +17,11 @@ class ClassRef:
         self.ci = ci
 
 
+class Obj(SimpleNamespace):
+    """instance of an interpreted class that defines __init__: usable as a dictionary key (identity hash); equality stays attribute-wise as for every SimpleNamespace"""
+    __hash__ = object.__hash__
+
+
 def make_hook(prog: Program, extra: Callable[[ast.Call, Evaluator], Any] = None):
     def instantiate(ci: ClassInfo, args: List[Any], kwargs: Dict[str, Any], ev: Evaluator) -> Any:
         if hook.enum_kind(ci) and len(args) == 1:
@@ -25,8 +30,8 @@ def make_hook(prog: Program, extra: Callable[[ast.Call, Evaluator], Any] = None)
                 if (m if hook.enum_kind(ci) == "int" else m.value) == args[0]:
                     return m
             raise Raised("ValueError", ast.Constant(value=None))
-        obj = SimpleNamespace(__cls__=ci)
         init = prog.find_method(ci, "__init__")
+        obj = Obj(__cls__=ci) if init is not None else SimpleNamespace(__cls__=ci)
         if init is not None:
             run_method(init, obj, args, kwargs)
             return obj
@@ -112,6 +117,11 @@ def make_hook(prog: Program, extra: Callable[[ast.Call, Evaluator], Any] = None)
                 if r and r[0] == "class":
                     a, k = get_args()
                     return instantiate(r[1], a, k, ev)
+            if f.id == "str" and len(call.args) == 1 and "str" not in ev.env:
+                v = ev.ev(call.args[0])
+                if isinstance(v, SimpleNamespace) and hasattr(v, "__cls__"):
+                    return to_str(v)
+                return str(v)
             if f.id == "bytes" and len(call.args) == 1:
                 v = ev.ev(call.args[0])
                 if isinstance(v, SimpleNamespace) and hasattr(v, "__cls__"):
@@ -132,6 +142,26 @@ def make_hook(prog: Program, extra: Callable[[ast.Call, Evaluator], Any] = None)
                             out.append(x)
                     return out
         if isinstance(f, ast.Attribute):
+            # module.Class(...) / module.function(...) / module.Class.classmethod(...) for modules of the analysed package
+            if isinstance(f.value, ast.Name) and f.value.id not in ev.env:
+                r = prog.resolve_name(ev.module, f.value.id)
+                if r and r[0] == "module":
+                    r2 = prog.resolve_name(r[1], f.attr)
+                    if r2 and r2[0] == "class":
+                        a, k = get_args()
+                        return instantiate(r2[1], a, k, ev)
+                    if r2 and r2[0] == "func":
+                        a, k = get_args()
+                        return ev.call_function(r2[1], a, k)
+            if isinstance(f.value, ast.Attribute) and isinstance(f.value.value, ast.Name) and f.value.value.id not in ev.env:
+                r = prog.resolve_name(ev.module, f.value.value.id)
+                if r and r[0] == "module":
+                    r2 = prog.resolve_name(r[1], f.value.attr)
+                    if r2 and r2[0] == "class":
+                        m = prog.find_method(r2[1], f.attr)
+                        if m is not None:
+                            a, k = get_args()
+                            return run_method(m, ClassRef(r2[1]), a, k) if m.kind == "classmethod" else run_method(m, None, a, k)
             # Class.classmethod(...)
             if isinstance(f.value, ast.Name) and f.value.id not in ev.env:
                 r = prog.resolve_name(ev.module, f.value.id)
@@ -205,6 +235,9 @@ def make_hook(prog: Program, extra: Callable[[ast.Call, Evaluator], Any] = None)
             m = prog.find_method(base.__cls__, attr)
             if m is not None and m.kind == "property":
                 return run_method(m, base, [], {})
+            if m is not None and not vars(base).get(attr):
+                # a bound method taken as a value (callback registration): an opaque reference
+                return SimpleNamespace(bound_method=m.qualname, bound_self=base)
         return NotImplemented
 
     def to_str(v: Any) -> str:
